@@ -33,6 +33,8 @@ class VIter(V):
 
 def iteration_model(ex, it, node):
   ctx = ex.ctx
+  if hasattr(it, 'py_iter'):
+    it = it.py_iter(ex, node)
   if isinstance(it, VIter):
     return it
   if isinstance(it, VRange):
@@ -113,7 +115,9 @@ def inv_ns(ex, env, ghost):
 def check_invs(ex, spec, env, ghost, kind):
   ns = inv_ns(ex, env, ghost)
   for cl in spec.invariants:
-    ex.ctx.oblige(cl.fn(ns), cl.label, kind, cl.props)
+    g = cl.fn(ns)
+    ex.ctx.oblige(g, cl.label, kind, cl.props)
+    ex.ctx.assume(g)
 
 
 def assume_invs(ex, spec, env, ghost):
